@@ -173,7 +173,12 @@ func barrierWF(c *Case) *WF {
 			w.Sources[p] = fmt.Sprintf("barrier source %d %d\n", g, i)
 		}
 		w.Nodes = append(w.Nodes, src)
-		w.Nodes = append(w.Nodes, Node{Name: fmt.Sprintf("p%d", g), Kind: KProc, Cores: cores, Barrier: k,
+		// (a group of Go-function tasks must run side by side like any other)
+		custom := 0
+		if t.Choose(simrt.StGen, 3, 0) == 1 {
+			custom = 1
+		}
+		w.Nodes = append(w.Nodes, Node{Name: fmt.Sprintf("p%d", g), Kind: KProc, Cores: cores, Barrier: k, Custom: custom,
 			Ins:  []InSpec{{Name: "a", From: []Edge{{len(w.Nodes) - 1, "out"}}}},
 			Outs: []OutSpec{{Name: "o0", Pattern: fmt.Sprintf("{i:a}.p%d.o0", g)}}})
 		total += k * cores
